@@ -49,7 +49,7 @@ K = [
 ]
 OBLIGATIONS = []
 for name, entry, stubs, what, uf, defs in K:
-    OBLIGATIONS.append(Ob('C05.' + name, H, entry, tier=('thorough' if name in ('intsqrt', 'texcoords_pred') else 'quick'), unwind={'bit_start': 36, 'rans_tab5': 8, 'rans_tab18': 8, 'intsqrt': 24}.get(name, 14), uf_int=(False if name == 'intsqrt' else ('all' if name.startswith('oct_') else True)), engine='tv', stubs=stubs, uf_float=uf, defines=defs, max_alloc=(64 if name.startswith('texcoords') else 16),
+    OBLIGATIONS.append(Ob('C05.' + name, H, entry, tier={'intsqrt': 'thorough', 'texcoords_pred': 'extended'}.get(name, 'quick'), unwind={'bit_start': 36, 'rans_tab5': 8, 'rans_tab18': 8, 'intsqrt': 24}.get(name, 14), uf_int=(False if name == 'intsqrt' else ('all' if name.startswith('oct_') else True)), engine='tv', stubs=stubs, uf_float=uf, defines=defs, max_alloc=(64 if name.startswith('texcoords') else 16),
         object_bits=10,
         allow_alloc_cut=True, fill_bound=12, diff=False, timeout=(900 if name.startswith('rans_') else None), backend=('kissat' if name == 'texcoords_pred' else 'minisat'),
         bound='current kernel == kernel frozen at the pinned revision, for all inputs of the kernel harness (10 symbolic stream bytes / all integer arguments)',
